@@ -16,6 +16,8 @@ import (
 	"time"
 
 	"golang.org/x/tools/go/packages"
+
+	"verif/internal/world"
 )
 
 // Plan mirrors verifsim.Plan.
@@ -333,3 +335,32 @@ func gopathLayout(files map[string]string) map[string]string {
 }
 
 func gopathEnv(root string) []string { return []string{"GO111MODULE=off", "GOPATH=" + root} }
+
+// userSourceProblems type-checks the user sources of a world as written to
+// dir (before any goderive run: no derived.gen.go yet) and returns the errors
+// that are not about a missing derive function. A world of the *supported*
+// workload must have none: one that has is a mistake of the world generator
+// (two hand-written functions of one name, a type used as its own map key),
+// not something to hold against goderive, and the case is discarded and
+// counted (probe world.invalid_discarded) instead of being judged.
+func userSourceProblems(dir string, w *world.World, pkgs ...string) []string {
+	_, errs := typecheckWorldAll(dir, pkgs...)
+	var out []string
+	for _, e := range errs {
+		if i := strings.Index(e, "undefined: "); i >= 0 {
+			name := strings.TrimSpace(e[i+len("undefined: "):])
+			derive := false
+			for _, pl := range world.AllPlugins {
+				if px := w.PrefixOf(pl); px != "" && strings.HasPrefix(name, px) {
+					derive = true
+					break
+				}
+			}
+			if derive {
+				continue
+			}
+		}
+		out = append(out, e)
+	}
+	return out
+}
